@@ -18,7 +18,7 @@ import (
 
 // Config is one ingest configuration.
 type Config struct {
-	Delim   string `json:"delim"`   // one of , | ; \t
+	Delim   string `json:"delim"`   // one of , | ; \t and the multi-byte ¦ →
 	Spills  int    `json:"spills"`  // 0 none, k about k sorted runs, -1 every row spills
 	Workers int    `json:"workers"` // value passed to WithNumWorkers (the inserter uses max(1,n-2) goroutines)
 }
@@ -33,9 +33,9 @@ func (c Config) Rune() rune {
 // GenConfig draws a configuration.
 func GenConfig(t *rapid.T, label string) Config {
 	return Config{
-		Delim:   rapid.SampledFrom([]string{",", ",", "|", ";", "\t"}).Draw(t, label+".delim"),
+		Delim:   rapid.SampledFrom([]string{",", ",", "|", ";", "\t", "¦", "→"}).Draw(t, label+".delim"),
 		Spills:  rapid.SampledFrom([]int{0, 0, 1, 2, 5, -1}).Draw(t, label+".spills"),
-		Workers: rapid.SampledFrom([]int{1, 1, 3, 4, 8, 16}).Draw(t, label+".workers"),
+		Workers: rapid.SampledFrom([]int{1, 1, 3, 4, 2, 8, 16}).Draw(t, label+".workers"),
 	}
 }
 
